@@ -127,7 +127,7 @@ impl Totals {
     }
 }
 
-const UNITS: &[Option<&str>] = &[Some("g"), Some("kg"), Some("oz"), Some("lb"), Some("ml"), Some("l"), Some("cup"), Some("tsp"), Some("min"), Some("h"), Some("pinch"), Some("cans"), Some("x"), None, None, Some("T"), Some("t"), Some("Cans"), Some("dl"), Some("dag"), Some("cl"), Some("hg")];
+const UNITS: &[Option<&str>] = &[Some("g"), Some("kg"), Some("oz"), Some("lb"), Some("ml"), Some("l"), Some("cup"), Some("tsp"), Some("min"), Some("h"), Some("pinch"), Some("cans"), Some("x"), None, None, Some("T"), Some("t"), Some("Cans"), Some("dl"), Some("dag"), Some("cl"), Some("hg"), Some("gal"), Some("qt"), Some("pint"), Some("fl oz"), Some("tbsp"), Some("in"), Some("ft"), Some("d"), Some("s")];
 
 fn rand_quantity(r: &mut Rng) -> ScaledQuantity {
     let num = |r: &mut Rng| -> Number {
